@@ -392,23 +392,18 @@ func Check(tr *Trace, w Which) ([]Finding, Classes) {
 		}
 		if op.Kind == OpClose && !closed {
 			closed = true
+			// records pushed from inside Close's own callbacks arrive after Close detached the buffer: they are
+			// not covered by the flush and stay buffered (later calls may deliver them)
+			var left []uint32
 			for sq, e := range open {
-				// records pushed from inside Close's own callbacks arrive after Close was invoked: not covered
-				keep := false
 				for _, id := range e.msgs {
 					if id < len(h.Ops) {
-						keep = true
+						left = append(left, sq)
+						break
 					}
 				}
-				if !keep {
-					delete(open, sq)
-				}
 			}
-			if len(open) > 0 && (w.C01 || w.C19) {
-				var left []uint32
-				for s := range open {
-					left = append(left, s)
-				}
+			if len(left) > 0 && (w.C01 || w.C19) {
 				sort.Slice(left, func(i, j int) bool { return left[i] < left[j] })
 				p := "C01"
 				if !w.C01 {
